@@ -172,6 +172,10 @@ impl World {
             Ok(Ok(m)) => {
                 out.count(&format!("result:ok{}", m.len().min(6)));
                 let order: Vec<usize> = m.keys().map(|k| keys.get_index_of(k).unwrap()).collect();
+                if (2..=3).contains(&order.len()) {
+                    // which completion orders were actually seen for small requests
+                    out.count(&format!("order{}:{}", order.len(), order.iter().map(|i| i.to_string()).collect::<Vec<_>>().join("")));
+                }
                 if order.windows(2).all(|w| w[0] < w[1]) {
                     out.count("completion:in-request-order");
                 } else {
